@@ -429,7 +429,8 @@ func (h *histogram) snapshotValues() map[float64]int64 {
 
 	vals := make(map[float64]int64, len(h.buckets))
 	for i := range h.buckets {
-		vals[h.buckets[i].valueUpperBound] = h.samples[i].counter.snapshot()
+		// n.b. Duplicated bounds give several buckets with one upper bound.
+		vals[h.buckets[i].valueUpperBound] += h.samples[i].counter.snapshot()
 	}
 
 	return vals
@@ -442,7 +443,7 @@ func (h *histogram) snapshotDurations() map[time.Duration]int64 {
 
 	durations := make(map[time.Duration]int64, len(h.buckets))
 	for i := range h.buckets {
-		durations[h.buckets[i].durationUpperBound] = h.samples[i].counter.snapshot()
+		durations[h.buckets[i].durationUpperBound] += h.samples[i].counter.snapshot()
 	}
 
 	return durations
